@@ -24,6 +24,7 @@ type exprContext struct {
 	root            store.Cursor
 	result          Result
 	contextPosition int
+	contextSize     int
 	// principalNodeType is the principal node type of the axis of the step
 	// whose node test is being evaluated.
 	principalNodeType principalNodeType
@@ -49,6 +50,7 @@ func (e *exprContext) copy() exprContext {
 		root:             e.root,
 		result:           e.result,
 		contextPosition:  e.contextPosition,
+		contextSize:      e.contextSize,
 		builtinFunctions: builtinFunctions,
 		ContextSettings:  e.ContextSettings,
 	}
